@@ -145,6 +145,72 @@ reg("C34", "exploration",
     "well-formed result exactly once with id, severity, message, locations; summaries reach the whole-program stage.",
     "Judged severities: error..information. Thorough is deadline-capped. Trusted: stub, 60-line expectation function. One known finding.")
 
+reg("C05", "exploration",
+    "bounded-exhaustive metamorphic checking: all combinations of finding-triggering building blocks plus samples/ x all rewrites of four finite families, token-level proof of each rewrite, many variants per run of the real binary",
+    "Every program of the corpus (all <=2-block (quick) / <=3-block (thorough) combinations of 27 blocks as C/C++ files with <=5 permutable top-level "
+    "definitions, + 30 sample files) is rewritten by EVERY member of W (indentation, one token per line, joined definitions, CRLF), B (blank / // / "
+    "/* */ line at each statement boundary, deletion of each blank/comment line), R (3 total renamings) and O (every legal permutation); findings of "
+    "rewrite(P) must equal those of P under the rewrite's own location / 'line N' / name map.",
+    "Small scope. Excluded by the property text: suspiciousSemicolon for W/B (documentation quoted in evidence). Known: certainty of "
+    "duplicateBreak/unreachableCode depends on a line between the statements. Trusted: 60-line lexer and re-lex alignment proof.")
+reg("C06", "exploration",
+    "bounded-exhaustive metamorphic checking over abstract programs printed in all expansion masks; findings and --dump value facts compared on token-aligned using code",
+    "All placeholder sets (|S|<=2 of typedef/using x 8 types, #define x 4 values, SQ(x), id<T> x 5, Box<T> x 5) x all lists of <=2 (quick) / <=3 "
+    "(thorough) of 7 value-relevant use positions; each pair of forms differing in ONE expansion must give equal findings on the using code modulo the "
+    "line offset and equal Known/Impossible facts on every aligned token.",
+    "One typedef/alias/macro/template shape each; straight-line uses; facts inside the expansion ignored as the statement says. 20 known classes "
+    "(macro/typedef suppressions by design, sizeof of using-array alias, cosmetic expressionString differences).")
+reg("C08", "exploration",
+    "bounded-exhaustive enumeration of scope-grammar and overload programs, differential against clang's JSON AST, hundreds of programs per run",
+    "All trees of <=3 scopes plus all 4-scope chains (thorough: all 4-scope programs, then 5-scope until the deadline) over 9 scope kinds x declaration "
+    "variants x all use forms, with and without a global x, C subset as C; all overload sets of size <=3 of 12 parameter lists x 12 arguments. Every "
+    "linked use or call must name clang's declaration; distinct clang declarations never share a varId.",
+    "Small-scope; one variable name throughout; unlinked uses not judged. Trusted: clang 14, byte-offset position mapping. Four known findings.")
+reg("C11", "exploration",
+    "bounded-exhaustive enumeration of a preprocessing grammar, differential against gcc -E as a conforming reference, many renamed independent units per process",
+    "Every unit of Gpp (1-2 macro definitions from 38 forms incl. #, ##, variadic, self/mutual reference x 15 use forms; 9 #if/#ifdef forms x "
+    "else/elif, nested once; 13 #include forms via -I / forced include) under all 48 non-contradictory subsets of {-DA,-DA=2,-DB=A,-UA,-Iinc,"
+    "--include=pre.h}: pp-token sequence of cppcheck -E == that of gcc -E -P -undef -nostdinc; quick 463k, thorough 3.5M (unit,config) pairs.",
+    "Small-scope; no __FILE__/__LINE__/__COUNTER__/GNU extensions/__VA_OPT__. Units gcc rejects are not judged. Disagreements reported per minimal "
+    "class (a new defect confined to already-disagreeing inputs of the same category would be masked). 12 known keys from 5 root causes.")
+reg("C13", "exploration",
+    "bounded-exhaustive enumeration of complete input families with an in-process ASan+UBSan crash/hang oracle and fork-isolated blocks",
+    "Every token string of <=3 (thorough <=5, deadline) tokens over a 24-token alphabet in 3 contexts, C and C++; every byte string of <=1 byte, 2-byte "
+    "strings with one arbitrary byte (thorough: all) and <=3 (thorough 4) bytes over a 20-byte lexer alphabet; the complete single-edit neighbourhood "
+    "of the 129 files of fuzz-crash, fuzz-crash_c, fuzz-timeout and samples; all analysed in-process (CppCheck::checkBuffer + whole-program stages, "
+    "CmdLineParser-made Settings, std.cfg) under 4 option sets. Oracle: no signal, no sanitizer report, no escaping exception, CPU-time watchdog.",
+    "Small-scope; quick is deadline-cut on a busy machine (evidence says exhaustive:false and how far it got). Hang verdict needs 5x the CPU limit when "
+    "re-run alone. Leaks not judged. Trusted: harness equivalence with the -j1 client path. Two known findings.")
+reg("C14", "exploration",
+    "bounded-exhaustive input enumeration with an independent dump-graph checker and differential against the shipped cppcheckdata.py",
+    "All token strings of length <=3 (thorough 4) in function and class context as C and C++; template-alphabet strings of length <=2 (thorough 3); all "
+    "single-byte substitutions of 3 seeds; the <=3-scope corpus; samples/ and test/cfg/. Ids unique, every reference resolves by kind, links form a "
+    "properly nested involution, the AST is a forest, and cppcheckdata yields the same graph.",
+    "Acceptance means a <dump> element was emitted. Crashes and hangs recorded but not judged here. One known finding (overriddenFunction in cppcheckdata.py).")
+reg("C27", "exploration",
+    "exhaustive option-lattice exploration (64 option sets x trigger corpus) with a gating and covering-edge monotonicity oracle",
+    "All 64 option sets for each group (samples, handmade triggers, snippet files selected per finding kind from all 12.8k extracted test snippets - "
+    "thorough: all snippets and all test/cfg files with their library): (a) a gated severity is reported only if it is in the enabled closure and "
+    "inconclusive only with --inconclusive; (b) exact finding records only grow along all covering edges, and are equal for equal closures.",
+    "Only as strong as the trigger corpus. checkersReport count normalised. unusedFunction/missingInclude switches not varied. 24 known keys.")
+reg("C28", "exploration",
+    "observation closure: ids of all findings over a fixed exhaustively processed corpus must be a subset of the ids of --errorlist, many files per process",
+    "ids observed over samples, test/cfg with libraries, the fuzz-crash / fuzz-timeout corpora, 12.8k extracted test snippets (thorough: also as C and "
+    "with --check-level=exhaustive) and 38 hand-made preprocessor/tokenizer triggers, with --enable=all --inconclusive; 330 of 342 errorlist ids exercised.",
+    "THE CHECK IS ONLY AS STRONG AS ITS CORPUS: ids that no input triggers are not judged. Library <warn> ids and run-level ids are outside the claim. 30 known ids.")
+reg("C33", "exploration",
+    "3-way differential over an exhaustive product of per-item distinguishing token sets: matchcompiler.py output vs the interpreter of the USE_MATCHCOMPILER=Off build vs the doc-comment language",
+    "Every distinct pattern literal matchcompiler.py extracts from lib/*.cpp (2261) plus all generated patterns of <=2 items over a 53-item vocabulary "
+    "and all 3-item patterns over a reduced vocabulary, each evaluated on all token lists of length 0..k+1 over the distinguishing sets (full product to "
+    "a node cap, else <=2 deviations), in 4 language/standard modes, on real Token objects; findmatch with every end position; plain and mcoff clients "
+    "compared on samples/ and 6 test/cfg files.",
+    "Distinguishing sets are finite representatives; cases the doc comment does not decide are compared compiled vs interpreted only. Three known findings.")
+reg("C35", "exploration",
+    "bounded-exhaustive program enumeration through --clang --dump on the ASan+UBSan build, with the C14 invariants and clang's own references as oracle",
+    "Scope corpus with <=3 scopes (thorough: plus 4-scope chains), all 1-operator expression functions (thorough: 2-operator), 102 feature snippets, as "
+    "C and C++. No crash or sanitizer report; where no internal error is reported, the dump invariants hold and every linked use names clang's declaration.",
+    "Import token positions are approximate, so judging is conservative. Internal errors are exempt as the statement says.")
+
 ALL = ["C%02d" % i for i in range(1, 37)]
 
 
